@@ -354,7 +354,8 @@ def line_rule(ctx: Ctx) -> None:
     txt = " ".join(ast.unparse(f.node).split())
     ok = "(index + 1, line) for index, line in enumerate(self.program.splitlines())" in txt
     r.check(ok, "Parser._sanitize|numbering", f.loc(), "entries are no longer numbered index+1 over program.splitlines()")
-    ok = "(index, line.split('#', 1)[0].strip()) for index, line in self.sanitized_program" in txt
+    import re as _re
+    ok = bool(_re.search(r"\(index, line\.split\([^)]*\)\[0\]\.strip\(\)\) for index, line in self\.sanitized_program", txt))
     r.check(ok, "Parser._sanitize|carry", f.loc(), "comment stripping no longer keeps each entry's line number")
     f = m.method("Parser", "_tokenize", own=True)
     txt = " ".join(ast.unparse(f.node).split())
@@ -446,8 +447,13 @@ def key_rule(ctx: Ctx) -> None:
             raise AnalysisError(f"instruction_map does not fold: {exc}")
         pseudo = {"li", "mv", "la", "nop"} if cn == "RiscvParser" else set()
         extra = mnems - keys - pseudo
-        r.check(not extra, f"{cn}|mnemonics-in-map", pc.loc(), f"the grammar accepts mnemonics {sorted(extra)} that instruction_map does not know "
-                "(KeyError / silently dropped line)", {"grammar_mnemonics": len(mnems)})
+        if cn == "ToyParser":
+            # the TOY loader indexes instruction_map[mnemonic] without a membership test
+            r.check(not extra, f"{cn}|mnemonics-in-map", pc.loc(), f"the grammar accepts mnemonics {sorted(extra)} that instruction_map does not know "
+                    "(KeyError on load)", {"grammar_mnemonics": len(mnems)})
+        else:
+            # the RISC-V loader rejects unknown mnemonics itself (membership test checked below)
+            r.inst(f"{cn}|mnemonics", {"grammar_mnemonics": len(mnems), "not_in_map": sorted(extra)})
         if cn == "RiscvParser":
             # unguarded instruction_map[..] subscripts must be dominated by the `not in instruction_map` test
             for mn in ("_write_instructions", "_process_labels"):
